@@ -41,6 +41,9 @@ typedef struct ctx {
     const char *what;		/* deviation description */
     long pos;
     int level;
+    int kind;			/* deviation kind (level 1) or -1 */
+    int value_idx;		/* value index of the current input */
+    int seed_idx;
     int is_seed;		/* input is an unmodified non-probe seed */
     unsigned classes;		/* result classes seen */
     long inputs;
@@ -174,6 +177,27 @@ static void check_failure_report(vf_result *r, const char *who, int e,
 	for (int i = 0; i < log->count; ++i)
 	    if (log->category[i] != VNAERR_WARNING)
 		last = i;
+	if (last >= 0) {
+	    /* vnaerr(3): category -> errno table */
+	    int cat = log->category[last], want = 0;
+	    switch (cat) {
+	    case VNAERR_USAGE:	  want = EINVAL; break;
+	    case VNAERR_VERSION:  want = ENOPROTOOPT; break;
+	    case VNAERR_SYNTAX:	  want = EBADMSG; break;
+	    case VNAERR_MATH:	  want = EDOM; break;
+	    case VNAERR_INTERNAL: want = ENOSYS; break;
+	    default:		  want = 0; break;	/* system: any */
+	    }
+	    if ((want != 0 && log->err_no[last] != want) ||
+		    log->err_no[last] == 0) {
+		snprintf(sig, sizeof(sig), "errno-category:%s", who);
+		vf_fail(r, sig, "%s reported \"%s\" with category %d and "
+			"errno %d; vnaerr(3) pairs that category with errno "
+			"%d; input \"%s\"", who, log->msg[last], cat,
+			log->err_no[last], want, g_inesc);
+		return;
+	    }
+	}
 	if (last >= 0 && log->err_no[last] != e) {
 	    snprintf(sig, sizeof(sig), "errno-mismatch:%s", who);
 	    vf_fail(r, sig, "%s returned errno %d but its last error report "
@@ -555,6 +579,52 @@ static int prop_hash(const vnaproperty_t *p, uint64_t *h)
 /* ------------------------------------------------------------------ */
 /* vnacal oracle                                                      */
 
+static doc_t seed_docs[sizeof(seeds) / sizeof(seeds[0])];
+
+/*
+ * When exactly one matrix key of a "data" entry was renamed to the unknown
+ * key "zz:", the only matrix the loader can miss is the renamed one: the
+ * "missing required matrix" report has to name it.
+ */
+static void vc_check_missing_name(ctx_t *c, const vf_errlog *log)
+{
+    static const char *const mkeys[] = { "el:", "er:", "em:", "ts:", "ti:",
+	"tx:", "tm:", "um:", "ui:", "ux:", "us:", "e:", NULL };
+    const kw_t *kw = kw_tables[F_VNACAL];
+    const doc_t *d;
+    const char *orig, *q;
+    char named[16];
+    int ismat = 0;
+
+    if (c->level != 1 || c->kind != K_KW || c->seed == NULL ||
+	    log->count < 1 || log->count > VF_ERRLOG_MAX)
+	return;
+    if (strcmp(kw[c->value_idx].text, "zz:") != 0)
+	return;
+    d = &seed_docs[c->seed_idx];
+    orig = kw[d->kwidx[c->pos]].text;
+    for (int i = 0; mkeys[i] != NULL; ++i)
+	if (strcmp(mkeys[i], orig) == 0)
+	    ismat = 1;
+    if (!ismat)
+	return;
+    if ((q = strstr(log->msg[0], "missing required matrix \"")) == NULL)
+	return;
+    q += strlen("missing required matrix \"");
+    size_t n = strcspn(q, "\"");
+    if (n >= sizeof(named))
+	return;
+    memcpy(named, q, n);
+    named[n] = '\0';
+    if (strncmp(named, orig, strlen(orig) - 1) != 0 ||
+	    named[strlen(orig) - 1] != '\0') {
+	vf_fail(c->r, "errmsg-wrong-matrix:vnacal_load", "the only matrix "
+		"missing from the file is \"%.*s\" (its key was renamed to "
+		"zz) but vnacal_load reports: %s", (int)strlen(orig) - 1,
+		orig, log->msg[0]);
+    }
+}
+
 static int vc_dims_legal(int type, int rows, int cols)
 {
     if (rows < 1 || cols < 1)
@@ -755,6 +825,8 @@ static void run_vnacal(ctx_t *c, const char *b, int n)
     if (vcp == NULL) {
 	c->classes |= errno_class(e);
 	check_failure_report(r, "vnacal_load", e, &la);
+	if (r->status != VF_VIOL)
+	    vc_check_missing_name(c, &la);
 	if (c->is_seed && r->status != VF_VIOL) {
 	    vf_fail(r, "seed-refused:vnacal_load", "valid %s file refused "
 		    "(errno %d: %s)", c->seed->name, e,
@@ -830,6 +902,16 @@ static void run_yaml(ctx_t *c, const char *b, int n)
     errno = 0;
     int rva = vnaproperty_import_yaml_from_string(&ra, text, ERRFN, &la);
     int ea = errno;
+    /* the second destination already holds a tree: the manual page says
+       that the import replaces any existing content */
+    if (vnaproperty_set(&rb, "old[1].k=v") == -1 ||
+	    vnaproperty_set(&rb, "other=w") == -1) {
+	vf_fail(r, "harness:populate", "cannot build the destination tree");
+	(void)vnaproperty_delete(&rb, ".");
+	vf_leak_discard(mark);
+	free(text);
+	return;
+    }
     FILE *fp = fopen(path, "r");
     errno = 0;
     int rvb = vnaproperty_import_yaml_from_file(&rb, fp, "in.yaml", ERRFN,
@@ -868,9 +950,11 @@ static void run_yaml(ctx_t *c, const char *b, int n)
 		vf_fail(r, "shape:vnaproperty", "imported tree cannot be "
 			"walked with the getters; input \"%s\"", g_inesc);
 	    } else if (ha != hb) {
-		vf_fail(r, "string-vs-file:vnaproperty_import", "same text "
-			"imported from string and from file gives different "
-			"trees; input \"%s\"", g_inesc);
+		vf_fail(r, "dest-dependent:vnaproperty_import", "same text "
+			"imported from string into an empty root and from "
+			"file into a root that held a tree gives different "
+			"trees (vnaproperty(3): the import replaces any "
+			"existing content); input \"%s\"", g_inesc);
 	    } else {
 		/* export and re-import */
 		FILE *out = fopen(rtpath, "w");
@@ -931,6 +1015,7 @@ static void run_input(ctx_t *c, const char *b, int n, int value_idx)
     if (vf_verbose)
 	vf_note("  input: \"%s\"", g_inesc);
     ++c->inputs;
+    c->value_idx = value_idx;
     switch (c->format) {
     case F_TS:
     case F_NPD:
@@ -960,7 +1045,6 @@ typedef struct kase {
 
 static kase_t *cases;
 static long ncases, cases_alloc;
-static doc_t seed_docs[sizeof(seeds) / sizeof(seeds[0])];
 
 static void add_case(int type, int seed, int kind, long lo, long hi, int var)
 {
@@ -1168,6 +1252,7 @@ static void run(int tier, long idx, vf_result *r)
 
     memset(&c, 0, sizeof(c));
     c.r = r;
+    c.kind = -1;
     switch (k->type) {
     case CT_SEED:
 	{
@@ -1191,6 +1276,8 @@ static void run(int tier, long idx, vf_result *r)
 	    c.ext = sd->ext;
 	    c.what = kind_names[k->kind];
 	    c.level = k->type == CT_DEV1 ? 1 : 2;
+	    c.kind = k->type == CT_DEV1 ? k->kind : -1;
+	    c.seed_idx = k->seed;
 	    for (long p = k->lo; p < k->hi && r->status != VF_VIOL; ++p) {
 		c.pos = p;
 		dev_apply(&seed_docs[k->seed], k->kind, p,
